@@ -3,6 +3,7 @@ package main
 import (
 	"encoding/json"
 	"fmt"
+	"golang.org/x/tools/go/ssa"
 	"os"
 	"path/filepath"
 	"sort"
@@ -43,11 +44,12 @@ type Run struct {
 	Assume   []string
 	NotDec   []string
 	Extra    map[string]interface{}
+	Anchors  map[*ssa.Function]bool // functions the property's rules resolved by name
 }
 
 func NewRun(P *Prog, prop, tier string) *Run {
 	return &Run{P: P, Prop: prop, Tier: tier, Deep: tier == "thorough", RuleText: map[string]string{},
-		floors: map[string]int{}, counts: map[string]int{}, Stats: map[string]int{}, Extra: map[string]interface{}{}}
+		floors: map[string]int{}, counts: map[string]int{}, Stats: map[string]int{}, Extra: map[string]interface{}{}, Anchors: map[*ssa.Function]bool{}}
 }
 
 // Rule declares a rule: its text (goes to the evidence) and the number of
